@@ -1,5 +1,5 @@
-import SgeProofs.Lemmas.CollateralSettle
+import SgeProofs.Lemmas.CollateralWager
 open Sge.Core
-#check @endBlockO_col
-#print axioms endBlockO_col
-#print axioms houseWithdrawO_col
+#check @col_visit_some
+#print axioms col_visit_some
+#print axioms requeue_col
